@@ -8,7 +8,8 @@ from ..cfg import cfg_of
 from ..guards import Env, walk, collect_atoms, valuations, describe_env
 from ..report import Report
 from ..rules.freshname import check_fresh_names
-from ..util import callee_last, enclosing_stmt, depends_on
+from ..util import callee_last, enclosing_stmt, depends_on, inline_temps
+from ..normalize import inlined_view
 
 CJ = 'fggs.conjunction'
 
@@ -71,8 +72,26 @@ def run(prog: Program, rep: Report, tier: str) -> None:
 
 
 def conjoinable_rule(rep: Report, prog: Program) -> None:
-    f = prog.func(CJ, 'conjoinable')
-    cfg = cfg_of(f)
+    f = inlined_view(prog, prog.func(CJ, 'conjoinable'))
+    # `return <test>` is the same decision as `if <test>: return True / else: return False`: analyse the normalised body
+    import copy
+    from ..cfg import CFG
+
+    class RetNorm(ast.NodeTransformer):
+        def visit_FunctionDef(self, n): return n
+        def visit_Lambda(self, n): return n
+        def visit_Return(self, n):
+            if n.value is None or isinstance(n.value, ast.Constant):
+                return n
+            new = ast.If(test=n.value, body=[ast.Return(value=ast.Constant(value=True))], orelse=[ast.Return(value=ast.Constant(value=False))])
+            return ast.fix_missing_locations(ast.copy_location(new, n))
+    body = [RetNorm().visit(copy.deepcopy(st)) for st in f.node.body]
+    for st in body:
+        for x in ast.walk(st):
+            for fld in ('lineno', 'col_offset', 'end_lineno', 'end_col_offset'):
+                if not hasattr(x, fld) and isinstance(x, (ast.stmt, ast.expr)):
+                    setattr(x, fld, getattr(st, fld, 0))
+    cfg = CFG(body)
     p1, p2 = f.positional_params()[:2]
     atoms: Dict[str, ast.AST] = {}
     for n, nd in cfg.nodes.items():
@@ -166,7 +185,7 @@ def conflict_rules(rep: Report, prog: Program) -> None:
 
 
 def shape_rules(rep: Report, prog: Program) -> None:
-    f = prog.func(CJ, 'conjoin_rules')
+    f = inlined_view(prog, prog.func(CJ, 'conjoin_rules'))       # expression helpers such as `_terminal_edges(rule)` read through
     r1, r2 = f.positional_params()[:2]
     loops = [n for n in own_nodes(f.node) if isinstance(n, ast.For)]
     rule = 'C17-D4 paired-rule-shape'
@@ -183,6 +202,7 @@ def shape_rules(rep: Report, prog: Program) -> None:
         for c in [x for x in ast.walk(l) if isinstance(x, ast.Call) and callee_last(x) == 'Edge']:
             kw = {k.arg: k.value for k in c.keywords}
             lab = kw.get('label') or (c.args[0] if c.args else None)
+            lab = inline_temps(l, lab) if lab is not None else None
             nodes = kw.get('nodes') or (c.args[1] if len(c.args) > 1 else None)
             eid = kw.get('id') or (c.args[2] if len(c.args) > 2 else None)
             e1, e2 = [norm(x) for x in l.target.elts] if isinstance(l.target, ast.Tuple) else (None, None)
